@@ -36,14 +36,14 @@ def obligations(tier):
         n = w + 1 + EXTRA.get(name, 3)
         obs.append(Ob(f"cfg:{spec_name(('ind', name, kw))}{extra}/batch/n={n}", dict(spec=["ind", name, kw], n=n, mode="batch", extra=extra), TOT, weight=n * 5, budget_s=300, max_paths=200000))
         obs.append(Ob(f"cfg:{spec_name(('ind', name, kw))}{extra}/fill-gap/n={max(3, w + 1)}", dict(spec=["ind", name, kw], n=max(3, w + 1), mode="fill", extra=extra), TOT, weight=n * 5, budget_s=300, max_paths=200000))
-    # chained on another member's output, which starts late (SMA(3): first reading on the third candle; a dotted dict field
+    # chained on another member's output, which starts late (SMA(5): first reading on the fifth candle, later than any candle-fed helper of period 2; a dotted dict field
     # of MACD: on the fourth): helper series fed from the candles and helper series fed from the input warm up at different times
     from hexital.indicators import INDICATOR_MAP
     for kind, name, kw, w in all_specs(tier):
         if kind != "ind" or "input_value" not in getattr(INDICATOR_MAP[name], "__dataclass_fields__", {}) or name in ("ADX", "Counter"):
             continue
-        for src in (("SMA_3", "volume") if (tier == "quick" and name not in ("KC", "BBANDS", "STOCH")) else ("SMA_3", "MACD_2_3_2.signal", "volume")):
-            late = {"SMA_3": 2, "volume": 0}.get(src, 3)     # 'volume': a price field that may be exactly 0 on any candle
+        for src in (("SMA_5", "volume") if (tier == "quick" and name not in ("KC", "BBANDS", "STOCH")) else ("SMA_5", "MACD_2_3_2.signal", "volume")):
+            late = {"SMA_5": 4, "volume": 0}.get(src, 3)     # 'volume': a price field that may be exactly 0 on any candle
             n = late + w + (2 if name in EXTRA else 3)
             for feed in ("batch", "append"):
                 obs.append(Ob(f"chained on {src}/{spec_name((kind, name, kw))}/{feed}/n={n}", dict(spec=[kind, name, dict(kw, input_value=src)], n=n, mode="chained", feed=feed, src=src), TOT,
@@ -125,7 +125,7 @@ def run(ctx, P):
     if P["mode"] == "chained":
         _, _, Candle, _, Hexital = lib()
         cs = mk_candles(ctx, n)
-        source = {"SMA_3": lambda: [build("SMA", dict(period=3))], "volume": lambda: []}.get(P["src"], lambda: [build("MACD", dict(fast_period=2, slow_period=3, signal_period=2))])()
+        source = {"SMA_5": lambda: [build("SMA", dict(period=5))], "volume": lambda: []}.get(P["src"], lambda: [build("MACD", dict(fast_period=2, slow_period=3, signal_period=2))])()
         ind = build_any(spec)
         if P["feed"] == "batch":
             hx = Hexital("hx", cs, source + [ind])
